@@ -58,6 +58,8 @@ func SolverBin() string {
 // equality solving, which decides many div/mod-heavy queries that the
 // incremental core does not.
 const hardTactic = "(check-sat-using (then simplify propagate-values solve-eqs smt))"
+const hardTactic2 = "(check-sat-using (then simplify propagate-values solve-eqs (using-params smt :arith.solver 2)))"
+const hardTactic3 = "(check-sat-using (then simplify solve-eqs (using-params smt :random_seed 17)))"
 
 func NewSession(timeout time.Duration, st *Stats) (*Session, error) {
 	s := &Session{Bin: SolverBin(), Timeout: timeout, Stats: st}
@@ -615,18 +617,30 @@ func (s *Session) CheckT(timeout time.Duration, hard, wantModel bool, extra ...*
 	for _, n := range names {
 		s.send(fmt.Sprintf("(assert %s)", n))
 	}
-	strategies := []string{"(check-sat)", hardTactic}
+	type strat struct {
+		cmd  string
+		frac int // share of the timeout in percent
+	}
+	strategies := []strat{{"(check-sat)", 100}, {hardTactic, 100}}
 	if hard || os.Getenv("VERIF_TACTIC_FIRST") != "" {
-		strategies = []string{hardTactic, "(check-sat)"}
+		// a small portfolio: solver run times on these queries are heavy-tailed, and a second
+		// configuration usually decides at once what the first one got stuck on
+		strategies = []strat{{hardTactic, 50}, {hardTactic2, 25}, {hardTactic3, 25}, {"(check-sat)", 25}}
 	}
 	if s.OneStrategy {
 		strategies = strategies[:1]
+		strategies[0].frac = 100
 	}
 	res := Unknown
 	for _, st := range strategies {
-		s.send(st)
+		to := timeout * time.Duration(st.frac) / 100
+		if to != s.curTimeout {
+			s.send(fmt.Sprintf("(set-option :timeout %d)", to.Milliseconds()))
+			s.curTimeout = to
+		}
+		s.send(st.cmd)
 		// watchdog: a solver that ignores its own timeout is killed
-		wd := time.AfterFunc(timeout+10*time.Second, func() {
+		wd := time.AfterFunc(to+10*time.Second, func() {
 			if s.cmd != nil && s.cmd.Process != nil {
 				s.cmd.Process.Kill()
 			}
